@@ -144,8 +144,8 @@ def make_engine():
         u = DF.with_tz(r, z)
         st.assume(E.cls_of(u) == engine.lat.id("datetime"), DF.aware(u), E.truthy(u), u != E.NONE, *[DF.F[n](u) == DF.F[n](r) for n in DF.F])
         return [(st, E.VRef(u))]
-    eng.contracts["TZP.localize_utc"] = localize_utc
-    eng.contracts["TZP.localize"] = localize
+    eng.contracts["TZP.localize_utc"] = comp.exact_arity(localize_utc, 2, "tzp.localize_utc(dt)")
+    eng.contracts["TZP.localize"] = comp.exact_arity(localize, 3, "tzp.localize(dt, tz)")
     eng.contracts["TZP.timezone"] = lambda e, s, a, k: [(s, E.VRef(z3.Function("provider_timezone", E.Ref, E.Ref)(e.box(a[1], s))))]
 
     def strftime(engine, st, args, kw):
